@@ -155,6 +155,21 @@ CLAIMED["C14"] = {
     "design_ref": "DESIGN.md §5 C14",
 }
 
+CLAIMED["C10"] = {
+    "text": "Decides: (1) the set of write forms is closed: every emission site of a name-writing opcode in the compiler (store, store_object, "
+            "store_fast, bin_op_assign, unwrap_into, ptr_mut, export_special, split_lookup_store), classified by the type of its operand expression "
+            "(user name vs compiler temporary), is mapped in rules/const_forms.json to a const-checked form or to an exemption with a reason; an unmapped "
+            "user-name site is reported as a new write form; (2) each form's parser function rejects a const target on every path: assignment / typed "
+            "/ modify / unpack (conditional guarded-by: whenever the looked-up previous binding exists, Ok is reachable only across "
+            "Ident::is_const == false), re-assignment (the root's const flag is Ident::is_const(root), carried unchanged through index/field steps "
+            "and tested before Ok), compound assignment and ?= (root_ident().is_const() before the result type is computed, for identifier, index "
+            "and field targets), named loop counter, import (name already mapped => Err), class (name in scope => Err); (3) module names and class "
+            "names are created const (one known finding: names bound by `import a from m` are rebindable copies, which the repository's own test "
+            "requires). Does not decide the scoping rules that say which bindings a lookup sees.",
+    "technique": "static analysis: instruction-literal/operand-type enumeration, conditional guarded-by with correlated-test pruning on rustc MIR, pass-through of the const flag",
+    "design_ref": "DESIGN.md §5 C10",
+}
+
 NOT_APPLICABLE = {
     "C01": "observable is program output; mechanism is relative jump offsets computed from Vec::len() arithmetic of recursively compiled blocks - deciding it needs symbolic execution of the generators (a different family); see DESIGN.md §5 C01",
     "C09": "a property of the compiler's *output* for all programs (jump targets, frame balance, operand-stack shape): needs symbolic block lengths or a verifier over emitted bytecode (translation validation), not an analysis of /repo's source; DESIGN.md §5 C09",
@@ -163,7 +178,7 @@ NOT_APPLICABLE = {
 }
 
 # no hook commits exist; the only commits made to /repo are unguarded "fix:" repairs of genuine defects (see known_findings.json)
-FIX_COMMITS = ["e2ae2a9", "cb2d1e0", "e7575e5", "7bc2f7d", "0af4d83", "e4a4c00", "58e025f", "686179e", "7296d9a", "fa4b68b", "379557f", "4b30646", "0420930", "3aba53e"]
+FIX_COMMITS = ["e2ae2a9", "cb2d1e0", "e7575e5", "7bc2f7d", "0af4d83", "e4a4c00", "58e025f", "686179e", "7296d9a", "fa4b68b", "379557f", "4b30646", "0420930", "3aba53e", "2f2a1a1", "40a185d"]
 
 PENDING = "check not built yet in this round (framework under construction); planned per DESIGN.md §5/§8"
 
